@@ -29,7 +29,7 @@ CanNest(p, c) ==
       [] p \in InlineKinds     -> c \in TextKinds \cup {"INL", "BR"}
       [] p = "PRE"             -> c \in TextKinds \cup {"INL", "BR", "DIV", "P", "UL", "OL"}  \* highlighters put block lines into pre
       [] p = "HIN"             -> c \in TextKinds \cup {"INL"}
-      [] p \in {"SKS", "SKF"}  -> c \in {"T", "t"}
+      [] p \in {"SKS", "SKF", "SHR"} -> c \in {"T", "t"}
       [] p \in FigKinds        -> c \in {"T", "t", "INL", "HIN", "SKS", "A", "CMT"}
       [] p = "TW"              -> c \in {"T", "t", "HIN", "SKS", "P"}
       [] p \in TableKinds      -> c \notin {"LI", "W"} \cup TableKinds
